@@ -517,7 +517,27 @@ class CopyProbe(Probe):
             lc, cc, rc = positional_refs(cp)
             so, sc = [sig(o) for o in lo], [sig(o) for o in lc]
             if so != sc:
-                fails.append({'what': 'copy does not have the same operation sequence'})
+                fl = {'what': 'copy does not have the same operation sequence'}
+                # second symptom of finding R24: the group relation that lost a member now has a different latest member, the
+                # operation carrying it is hung under a different node and the (layer by layer) listing of the copy differs in
+                # ORDER only.  Signature: same multiset of operations, the original has a group relation with a member listed
+                # after the operation that refers to it, and the copy's group relations have fewer members in total.
+                from collections import Counter
+                if Counter(so) == Counter(sc):
+                    order = {id(o): n for n, o in enumerate(listed_nodes(orig))}
+                    later = False
+                    for o in lo + co:
+                        lk = o.relation_link
+                        ms = getattr(lk, '_reference_nodes', None)
+                        me = order.get(id(o))
+                        if isinstance(lk, a.MultiRelationLink) and ms and me is not None \
+                                and any(order.get(id(m), -1) > me for m in ms):
+                            later = True
+                    members = lambda objs: sum(len(getattr(o.relation_link, '_reference_nodes', None) or [])
+                                               for o in objs if isinstance(o.relation_link, a.MultiRelationLink))
+                    if later and members(lc + cc) < members(lo + co):
+                        fl['group_ref_dropped'] = True
+                fails.append(fl)
             elif [c.nr_of_repetitions for c in co] != [c.nr_of_repetitions for c in cc]:
                 fails.append({'what': 'copy changed a repetition count'})
             else:
